@@ -46,33 +46,51 @@ def presentPosT (dflt : Int) (d : Nat) (f : T (d + 1)) : Fib Int (Nat × T d) :=
 structure LogRow where
   point : List Int
   cur : Json
-  apos : Nat
+  apos : Int
+
+/-- what the source presents at its top rank: format "C" → non-empty stored elements with their
+    storage position; format "U" with shape `n` → every coordinate `0..n-1` with the stored payload
+    (position) or a fresh default (position -1) -/
+def presentSrc (fmt : String) (shape : Nat) (dflt : Int) (d : Nat) (f : T (d + 1)) : Fib Int (Int × T d) :=
+  if fmt == "U" then
+    (List.range shape).map (fun (n : Nat) =>
+      let c : Int := Int.ofNat n
+      let l := (show List (Int × T d) from f)
+      let i := lowerBound l c
+      (c, match l[i]? with
+          | some e => if e.1 = c then (Int.ofNat i, e.2) else (-1, defaultTree dflt d)
+          | none => (-1, defaultTree dflt d)))
+  else (presentPosT dflt d f).map (fun e => (e.1, (Int.ofNat e.2.1, e.2.2)))
 
 /-- nested populate with the action table as loop body — an instance of `Ft.populate` at every level -/
-def popTree (dflt : Int) (acts : Acts) : (d : Nat) → List Int → T (d + 1) → T (d + 1) → T (d + 1) × List LogRow
+def popTree (dflt : Int) (acts : Acts) (fmt : String := "C") (shape : Nat := 0) : (d : Nat) → List Int → T (d + 1) → T (d + 1) → T (d + 1) × List LogRow
   | 0, pre, z, a =>
-    let r := populate dflt 0 (fun c cur (ap : Nat × T 0) => (leafAct dflt acts (pre ++ [c]) (show Int from cur) (show Int from ap.2) : Int))
-      z (presentPosT dflt 0 a)
+    let r := populate dflt 0 (fun c cur (ap : Int × T 0) => (leafAct dflt acts (pre ++ [c]) (show Int from cur) (show Int from ap.2) : Int))
+      z (presentSrc (if pre.isEmpty then fmt else "C") shape dflt 0 a)
     (r.1, r.2.map (fun y => { point := pre ++ [y.1], cur := jInt (show Int from y.2.1), apos := y.2.2.1 }))
   | d + 1, pre, z, a =>
     let recurse (c : Int) : Bool := match acts.get (pre ++ [c]) with | some .skip => false | some (.touch _) => false | _ => true
-    let r := populate dflt (d + 1) (fun c cur (ap : Nat × T (d + 1)) =>
+    let r := populate dflt (d + 1) (fun c cur (ap : Int × T (d + 1)) =>
         match acts.get (pre ++ [c]) with
         | some .skip => cur
         | some (.touch c') => insertIfMissing (defaultTree dflt d) (show List (Int × T d) from cur) c'
-        | _ => (popTree dflt acts d (pre ++ [c]) cur ap.2).1) z (presentPosT dflt (d + 1) a)
+        | _ => (popTree dflt acts "C" 0 d (pre ++ [c]) cur ap.2).1) z
+        (presentSrc (if pre.isEmpty then fmt else "C") shape dflt (d + 1) a)
     (r.1, r.2.flatMap (fun y =>
       { point := pre ++ [y.1], cur := treeToJson (d + 1) y.2.1, apos := y.2.2.1 } ::
-      (if recurse y.1 then (popTree dflt acts d (pre ++ [y.1]) y.2.1 y.2.2.2).2 else [])))
+      (if recurse y.1 then (popTree dflt acts "C" 0 d (pre ++ [y.1]) y.2.1 y.2.2.2).2 else [])))
 
 /-- independent spec: the leaf points the nested loops offer (in order), from the source alone -/
-def offered (dflt : Int) (acts : Acts) : (d : Nat) → List Int → T (d + 1) → List (List Int × Int)
-  | 0, pre, a => (present dflt 0 a).map (fun e => (pre ++ [e.1], (show Int from e.2)))
-  | d + 1, pre, a => (present dflt (d + 1) a).flatMap (fun e =>
+def presentTop (fmt : String) (shape : Nat) (dflt : Int) (d : Nat) (pre : List Int) (a : T (d + 1)) : Fib Int (T d) :=
+  (presentSrc (if pre.isEmpty then fmt else "C") shape dflt d a).map (fun e => (e.1, e.2.2))
+
+def offered (dflt : Int) (acts : Acts) (fmt : String := "C") (shape : Nat := 0) : (d : Nat) → List Int → T (d + 1) → List (List Int × Int)
+  | 0, pre, a => (presentTop fmt shape dflt 0 pre a).map (fun e => (pre ++ [e.1], (show Int from e.2)))
+  | d + 1, pre, a => (presentTop fmt shape dflt (d + 1) pre a).flatMap (fun e =>
       match acts.get (pre ++ [e.1]) with
       | some .skip => []
       | some (.touch _) => []
-      | _ => offered dflt acts d (pre ++ [e.1]) e.2)
+      | _ => offered dflt acts "C" 0 d (pre ++ [e.1]) e.2)
 
 /-- paths (of every length ≥ 1) stored in a tree -/
 def paths : (d : Nat) → T d → List (List Int)
@@ -80,14 +98,14 @@ def paths : (d : Nat) → T d → List (List Int)
   | d + 1, f => (show List (Int × T d) from f).flatMap (fun e => [e.1] :: (paths d e.2).map (e.1 :: ·))
 
 /-- every point the nested loops offer (interior and leaf), from the source and the action table alone -/
-def offeredAll (dflt : Int) (acts : Acts) : (d : Nat) → List Int → T (d + 1) → List (List Int)
-  | 0, pre, a => (present dflt 0 a).map (fun e => pre ++ [e.1])
-  | d + 1, pre, a => (present dflt (d + 1) a).flatMap (fun e =>
+def offeredAll (dflt : Int) (acts : Acts) (fmt : String := "C") (shape : Nat := 0) : (d : Nat) → List Int → T (d + 1) → List (List Int)
+  | 0, pre, a => (presentTop fmt shape dflt 0 pre a).map (fun e => pre ++ [e.1])
+  | d + 1, pre, a => (presentTop fmt shape dflt (d + 1) pre a).flatMap (fun e =>
       (pre ++ [e.1]) ::
       (match acts.get (pre ++ [e.1]) with
        | some .skip => []
        | some (.touch _) => []
-       | _ => offeredAll dflt acts d (pre ++ [e.1]) e.2))
+       | _ => offeredAll dflt acts "C" 0 d (pre ++ [e.1]) e.2))
 
 /-- is the payload stored at `p` a residue (a default leaf / a fiber without elements)?  `none` if
     nothing is stored at `p` -/
@@ -107,10 +125,12 @@ def residueAt (dflt : Int) : (d : Nat) → T d → List Int → Option Bool
 /-- residue test: no offered point that was not stored before the loop is left holding a default
     leaf / an element-less sub-fiber (elements the *body* inserts below an offered sub-fiber are the
     body's business) -/
-def residueFree (dflt : Int) (acts : Acts) (d : Nat) (z a out : T (d + 1)) : Bool :=
+def residueFree (dflt : Int) (acts : Acts) (fmt : String) (shape : Nat) (d : Nat) (z a out : T (d + 1)) : Bool :=
   let before := paths (d + 1) z
-  (offeredAll dflt acts d [] a).all (fun p =>
-    before.contains p || (residueAt dflt (d + 1) out p != some true))
+  (offeredAll dflt acts fmt shape d [] a).all (fun p =>
+    -- an offered *leaf* coordinate left at the default leaves no element, whether or not it existed;
+    -- an offered sub-fiber is only required to vanish if the loop itself created it
+    (p.length != d + 1 && before.contains p) || (residueAt dflt (d + 1) out p != some true))
 
 def handleC05 (j : Json) : Except String Verdict := do
   let d ← fNat j "d"
@@ -122,18 +142,20 @@ def handleC05 (j : Json) : Except String Verdict := do
   let impl ← field j "impl"
   let zi ← fTree impl "z" (d + 1)
   let yi ← fArr impl "yields"
-  let (mz, mlog) := popTree dflt acts d [] z a
+  let fmt := fStrD j "fmtA" "C"
+  let shape := (fNat j "shapeA").toOption.getD 0
+  let (mz, mlog) := popTree dflt acts fmt shape d [] z a
   -- agreement: final destination and the yielded sequence
-  let mlogJ := mlog.map (fun r => jList [jInts r.point, r.cur, jNat r.apos])
+  let mlogJ := mlog.map (fun r => jList [jInts r.point, r.cur, jInt r.apos])
   let agreeZ := treeEq (d + 1) mz zi
   let agreeY := (jList mlogJ).compress == (jList yi).compress
   -- independent spec on the implementation's observation
-  let off := offered dflt acts d [] a
+  let off := offered dflt acts fmt shape d [] a
   let m0 : PMap := content dflt (d + 1) z
   let mEnd : PMap := off.foldl (fun m pa => m.set pa.1 (leafAct dflt acts pa.1 (m.get dflt pa.1) pa.2)) m0
   let specContent := decide ((content dflt (d + 1) zi : PMap) = mEnd.canon dflt)
   let specWf := wfB (d + 1) zi
-  let specRes := residueFree dflt acts d z a zi
+  let specRes := residueFree dflt acts fmt shape d z a zi
   -- yields: the leaf rows of the implementation's log are exactly the offered points, in order,
   -- each showing the destination's current value
   let leafRows ← yi.filterMapM (fun r => do
@@ -160,7 +182,9 @@ def handleC05 (j : Json) : Except String Verdict := do
     (if !canonicalB dflt (d + 1) a then ["a-residue"] else []) ++
     (if (paths (d + 1) z).length + off.length > (paths (d + 1) zi).length + 0 && off.length > 0 then ["removed-some"] else []) ++
     (if acts.any (fun e => match e.2 with | .reset => true | _ => false) then ["reset"] else []) ++
-    (if acts.any (fun e => match e.2 with | .skip => true | _ => false) then ["skip"] else [])
+    (if acts.any (fun e => match e.2 with | .skip => true | _ => false) then ["skip"] else []) ++
+    (if acts.any (fun e => match e.2 with | .touch _ => true | _ => false) then ["touch"] else []) ++
+    (if fmt == "U" then ["srcU"] else [])
   pure { agree := agreeZ && agreeY, spec := specContent && specWf && specRes && specY,
          model := treeToJson (d + 1) mz, tags, why }
 
